@@ -1242,6 +1242,8 @@ def c06(tier, seed):
                         if ty not in generics:
                             generics.append(ty)
                         fs.append(dbg_field(vnames(ci + vi)[j] if kind == "named" else None, ty, a, form + vi + j, struct_style))
+                    if vn is False and tshown is None and all(f.s("debug", "ignore") for f in fs):
+                        vn = True      # nothing at all would be shown: rejected ("a unit struct needs to have a name", C13), not a member
                     vmeta = dbg_type_meta(vn if vn is not True else "default", vnf, form + vi)
                     variants.append(Variant("V%d" % vi, kind, fs, attrs=[vmeta] if vmeta else [], debug={"name": vn, "named_field": vnf}))
                 generics.sort()
